@@ -46,6 +46,14 @@ def emits(c: ast.Call, const: str, aliases=()) -> bool:
     for a in c.args:
         if const in names_in(a):
             return True
+    # through locals: `seq = SHOW_CURSOR * tty; print(SGR_DEFAULT, seq)` (backward value slice of each argument)
+    from .astutil import enclosing_func
+    from .sem import trace
+    fn = enclosing_func(c)
+    if isinstance(fn, (ast.FunctionDef, ast.AsyncFunctionDef)):
+        for a in c.args:
+            if any(isinstance(x, ast.Name) for x in ast.walk(a)) and const in names_in(trace(fn, a, use=c)):
+                return True
     return False
 
 
